@@ -141,6 +141,49 @@ def cases(ctx):
                 yield {"version": version, "steps": steps}
     ctx.exhaustive["reported-value-and-incoming-nonwake"] = count
     _ = pool
+    # "the most recently sent value": two sends on one key whose payloads are different TEXT for the same number, the same
+    # text in another case, with / without blanks ... - the later text is the one that is released (also with ack flipped)
+    count = 0
+    spellings = [("1.10", "1.1"), ("1.1", "1.10"), ("007", "7"), ("7", "7.0"), ("1e0", "1"), ("+1", "1"), ("0", "-0"),
+                 ("000100", "100"), ("on", "ON"), ("On", "on"), ("a", "a "), (" a", "a"), ("1", "1"), ("ff8800", "FF8800"),
+                 ("0x10", "16"), ("١", "1"), ("1", "true"), ("", "0"), ("0", "")]
+    for version in ("2.0", "2.1", "2.2", "1.5"):
+        wake = 32 if version == "2.2" else 22
+        for first, second in spellings:
+            for ack_pair in ((0, 0), (0, 1)):
+                for between in ([], [["rx", f"{A};0;1;0;2;{first}\n"]], [["rx", f"{B};255;3;0;{wake};1\n"]]):
+                    if not ctx.mine():
+                        continue
+                    count += 1
+                    steps = [["restore", n, {"type": 17, "version": "2.0", "sleeping": True,
+                                             "children": {"0": [3, "c0", {}], "1": [3, "c1", {}]}}] for n in (A, B)]
+                    steps += [["tx", [A, 0, 1, ack_pair[0], 2, first], True], *between,
+                              ["tx", [A, 0, 1, ack_pair[1], 2, second], True],
+                              ["rx", f"{A};255;3;0;{wake};1\n"], ["rx", f"{A};255;3;0;{wake};1\n"]]
+                    yield {"version": version, "steps": steps}
+    ctx.exhaustive["spelling-pairs"] = count
+    # a sleeping node that presents itself again (fresh registry entry, not flagged sleeping) keeps its parked commands until
+    # its next wake - also while OTHER nodes' commands push the buffer past round sizes (tables that tidy themselves up)
+    count = 0
+    for version in ("2.0", "2.1", "2.2"):
+        wake = 32 if version == "2.2" else 22
+        for size in ctx.pick([255, 256, 257, 1024], [63, 64, 127, 128, 255, 256, 257, 511, 512, 1023, 1024, 1025, 2048, 5000]):
+            for event in ("re-present", "flag-cleared", "none"):
+                if not ctx.mine():
+                    continue
+                count += 1
+                steps = [["restore", n, {"type": 17, "version": "2.0", "sleeping": True,
+                                         "children": {"0": [3, "c0", {}], "1": [3, "c1", {}]}}] for n in (A, B)]
+                steps += [["tx", [A, 0, 1, 0, 2, "keep-a0"], True], ["tx", [A, 1, 1, 1, 3, "keep-a1"], True]]
+                if event == "re-present":
+                    steps.append(["rx", f"{A};255;0;0;17;2.1\n"])
+                elif event == "flag-cleared":
+                    steps.append(["flag", A, "sleeping", False])
+                for i in range(size):
+                    steps.append(["tx", [B, i % 200, 1, 0, 2 + i // 200, f"b{i}"], True])
+                steps += [["rx", f"{A};255;3;0;{wake};1\n"], ["rx", f"{B};255;3;0;{wake};1\n"], ["rx", f"{A};255;3;0;{wake};1\n"]]
+                yield {"version": version, "steps": steps}
+    ctx.exhaustive["parked-across-re-presentation-x-buffer-size"] = count
     for i in range(ctx.pick(400, 20000) // ctx.shard_count):
         version = ("2.0", "2.1", "2.2", None, "1.5")[i % 5]
         yield histories.with_reply_faults(rng, {"version": version,
